@@ -334,6 +334,48 @@ def check_f_setter(ctx, ck, rule='R-FRESH.setter', with_resets=True):
 
 
 
+def check_solve_order(ctx, ck, rule='R-FRESH.solve-order'):
+    """compute(): order of the pipeline, decided on the symbolic walk (literal loops over method-name
+    tables, getattr with constant names and private helpers are resolved): on every path the four
+    steps are called exactly once, in order, and self.power is stored after the solve; the loads are
+    accumulated into a freshly filled matrix (shared by C14 / C01 / C08: a matrix kept across solves
+    collects the loads again and again)"""
+    m = ctx.model
+    prog = ctx.program
+    from ..symx import SymExec
+    f = m.func('mininec.Mininec.compute')
+    paths = [p_ for p_ in SymExec(ctx, f, bind_loops=True, private_only=True, max_paths=2000).run() if p_.end != 'raise']
+    ck.floor('paths through compute', len(paths), 1)
+    seqs = set()
+    pw_ok = True
+    for p_ in paths:
+        seq = []
+        for i_, ev in enumerate(p_.events):
+            if ev[0] == 'call' and isinstance(ev[1].func, ast.Attribute) and norm(ev[1].func.value) == 'self' and \
+               ev[1].func.attr in SOLVE_ORDER:
+                seq.append(ev[1].func.attr)
+            if ev[0] == 'store' and ev[1] == 'self.power':
+                seq.append('<power>')
+        seqs.add(tuple(seq))
+    want_seq = tuple(SOLVE_ORDER) + ('<power>',)
+    for name in SOLVE_ORDER:
+        counts = sorted({sq.count(name) for sq in seqs})
+        ck.ob(rule, f.qual + '|' + name, counts == [1], f.loc(),
+              '%s is called exactly once on every path' % name if counts == [1] else
+              '%s calls of %s in compute depending on the path (expected exactly 1)' % (counts, name))
+    for a_, b_ in zip(want_seq, want_seq[1:]):
+        ok = all(a_ in sq and b_ in sq and sq.index(a_) < sq.index(b_) for sq in seqs) and bool(seqs)
+        key = '%s|%s<%s' % (f.qual, a_, b_) if b_ != '<power>' else f.qual + '|power-after-solve'
+        ck.ob(rule, key, ok, f.loc(),
+              ('%s precedes %s on every path' % (a_, b_)) if b_ != '<power>' else 'self.power is computed after the currents')
+    # loads are accumulated with += : exactly one caller, which first refills the matrix
+    callers = [q for q, es in prog.edges.items() for e in es
+               if e.callee.qual == 'mininec.Mininec.compute_impedance_matrix_loads']
+    ck.ob(rule, 'compute_impedance_matrix_loads|single-caller',
+          sorted(set(callers)) == ['mininec.Mininec.compute'], f.loc(),
+          'callers of the load accumulation: %s' % sorted(set(callers)))
+
+
 def run(ctx, ck):
     prog = ctx.program
     m = ctx.model
@@ -397,41 +439,7 @@ def run(ctx, ck):
             ok = fl.cfg.must_pass(fl.cfg.exit.id, ids)
         ck.ob('R-FRESH.assign-before-update', '%s|%s-always-assigned' % (q, attr), ok, f.loc(),
               '%s is assigned on every path through %s' % (attr, q.split('.')[-1]))
-    # compute(): order of the pipeline, decided on the symbolic walk (literal loops over method-name
-    # tables, getattr with constant names and private helpers are resolved): on every path the four
-    # steps are called exactly once, in order, and self.power is stored after the solve
-    from ..symx import SymExec
-    f = m.func('mininec.Mininec.compute')
-    paths = [p_ for p_ in SymExec(ctx, f, bind_loops=True, private_only=True, max_paths=2000).run() if p_.end != 'raise']
-    ck.floor('paths through compute', len(paths), 1)
-    seqs = set()
-    pw_ok = True
-    for p_ in paths:
-        seq = []
-        for i_, ev in enumerate(p_.events):
-            if ev[0] == 'call' and isinstance(ev[1].func, ast.Attribute) and norm(ev[1].func.value) == 'self' and \
-               ev[1].func.attr in SOLVE_ORDER:
-                seq.append(ev[1].func.attr)
-            if ev[0] == 'store' and ev[1] == 'self.power':
-                seq.append('<power>')
-        seqs.add(tuple(seq))
-    want_seq = tuple(SOLVE_ORDER) + ('<power>',)
-    for name in SOLVE_ORDER:
-        counts = sorted({sq.count(name) for sq in seqs})
-        ck.ob('R-FRESH.solve-order', f.qual + '|' + name, counts == [1], f.loc(),
-              '%s is called exactly once on every path' % name if counts == [1] else
-              '%s calls of %s in compute depending on the path (expected exactly 1)' % (counts, name))
-    for a_, b_ in zip(want_seq, want_seq[1:]):
-        ok = all(a_ in sq and b_ in sq and sq.index(a_) < sq.index(b_) for sq in seqs) and bool(seqs)
-        key = '%s|%s<%s' % (f.qual, a_, b_) if b_ != '<power>' else f.qual + '|power-after-solve'
-        ck.ob('R-FRESH.solve-order', key, ok, f.loc(),
-              ('%s precedes %s on every path' % (a_, b_)) if b_ != '<power>' else 'self.power is computed after the currents')
-    # loads are accumulated with += : exactly one caller, which first refills the matrix
-    callers = [q for q, es in prog.edges.items() for e in es
-               if e.callee.qual == 'mininec.Mininec.compute_impedance_matrix_loads']
-    ck.ob('R-FRESH.solve-order', 'compute_impedance_matrix_loads|single-caller',
-          sorted(set(callers)) == ['mininec.Mininec.compute'], f.loc(),
-          'callers of the load accumulation: %s' % sorted(set(callers)))
+    check_solve_order(ctx, ck)
     check_f_setter(ctx, ck)
 
     # ---------------------------------------------------------------- D3 sweep loop
